@@ -189,7 +189,7 @@ func vHybridRun(tr *vTrace, id string, salt int64) (hang bool) {
 	failing := rnd.Intn(4) == 0
 	start := int64(1 + rnd.Intn(5000))
 	tr.Emit(vRec{"ev": "reset", "id": id, "maxsize": maxsize, "pool": 0, "door": 0, "loading": vb(loading), "mode": "hybrid",
-		"qcap": WriteChanSize, "t": start, "thresh": vThresh(20), "failing": vb(failing)})
+		"qcap": WriteChanSize, "t": start, "thresh": vThresh(20), "tick": vTickU(20), "failing": vb(failing)})
 	h, sec := vNewHybrid(tr, maxsize, loading, start)
 	defer func() {
 		h.quiet.Store(true)
